@@ -17,7 +17,7 @@ func init() {
 	register(&Property{
 		ID:      "C01",
 		NeedSSA: true,
-		Decided: "Narrow structural necessary conditions only: (tables) each entry of the encoding table, the compression codec table and the two level-encoding tables is the implementation whose identifying method/field equals its key, so the code stamped in a page header selects the same algorithm when read; (typepair) every Type implementation encodes with encoding.Encode<K>, decodes with encoding.Decode<K> and reports Kind() == K for one and the same K; (kinds) the dispatchers over the physical kind on the write and read side cover every kind or fail loudly; (wire) no call passes a struct field into the parameter named after a sibling field (e.g. repetition and definition level limits of a column buffer); (header) page header fields come from the matching accessors and sizes are measured at the right moment (C02.header); (sink) the destination writer is assigned and written only inside the offset-tracking wrapper, and every path of the writer's reset re-targets it through that wrapper, so a reused writer starts at offset 0; (fallback) the dictionary-to-PLAIN fallback never clears the dictionary that earlier pages refer to; (rows) values handed to WriteRowValues are aligned on rows (C11.rows).",
+		Decided: "Narrow structural necessary conditions only: (tables) each entry of the encoding table, the compression codec table and the two level-encoding tables is the implementation whose identifying method/field equals its key, so the code stamped in a page header selects the same algorithm when read; (typepair) every Type implementation encodes with encoding.Encode<K>, decodes with encoding.Decode<K> and reports Kind() == K for one and the same K; (kinds) the dispatchers over the physical kind on the write and read side cover every kind or fail loudly; (wire) no call passes a struct field into the parameter named after a sibling field (e.g. repetition and definition level limits of a column buffer); (header) page header fields come from the matching accessors and sizes are measured at the right moment (C02.header); (sink) the destination writer is assigned and written only inside the offset-tracking wrapper, and every path of the writer's reset re-targets it through that wrapper, so a reused writer starts at offset 0; (fallback) the dictionary-to-PLAIN fallback never clears the dictionary that earlier pages refer to; (rows) values handed to WriteRowValues are aligned on rows (C11.rows). (lazybuffer) every store of a freshly made column buffer into a column writer is dominated by the nil edge of a test of that field.",
 		NotDecided: "equality of values, levels and nesting after a round trip; behaviour of encoders, compressors, page cutting arithmetic and row-group limits; null detection kernels (which rows of a batch are null) beyond their element width (C03.nullwidth).",
 		Assumptions: []string{"see DESIGN.md §4 C01: the property as a whole is outside static reach"},
 		Run:         runC01,
